@@ -194,6 +194,13 @@ class Ctx:
                 sid = sid_at[v["n"] - 1] if 0 < v["n"] <= len(sid_at) else None
                 v["scenario"] = sid
                 v["scen_text"] = byid.get(sid, "")
+                ce = evs[v["n"] - 1] if 0 < v["n"] <= len(evs) else {}
+                if ce.get("call") == "CRASH" and "signal" in ce.get("why", "") and not one_per_process:
+                    # a crash may depend on what the earlier scenarios of the same process left behind: the replay file gets
+                    # every scenario this chunk ran before it as well
+                    ids = [bid for bid, _ in part]
+                    if sid in ids:
+                        v["scen_text"] = "".join(txt for _, txt in part[:ids.index(sid) + 1])
                 v["variant"] = variant
                 v["how"] = dict(driver=driver, spec=spec, wrapper=wrapper, env=env, one_per_process=one_per_process, dir=self.dir,
                                 post=("witnesses" if post is not None else None))
